@@ -1080,3 +1080,159 @@ func RunConcDisjoint(c *core.Ctx) {
 		c.Cell("conc-disjoint|%s|rounds%d|conflicts=%v", backendClass(backend), rounds, conflicts > 0)
 	}
 }
+
+// RunConcDDL: readers query an indexed field while one goroutine drops and re-creates the index. The documents
+// never change, so every answer - during the DDL and after it - must be exactly the matching documents, whatever
+// the index is doing (index transparency under concurrency); anything a handle remembers about the indexes of a
+// collection must not outlive the DDL that invalidates it.
+func RunConcDDL(c *core.Ctx) {
+	r := c.R
+	backend := gen.Pick(r, []string{BBolt, BBolt, BadgerMem, BadgerDisk})
+	h, err := Open(c, backend, "")
+	if err != nil {
+		c.Violate("open-error", "opening %s failed: %v", backend, err)
+		return
+	}
+	defer h.Destroy()
+	c.Backend = backend
+	const name = "d"
+	n := r.Range(12, 60)
+	mc := model.NewColl()
+	docs := make([]*document.Document, n)
+	for i := range docs {
+		m := map[string]any{"_id": r.UUID(), "x": int64(i), "g": int64(i % 4)}
+		mc.Docs[m["_id"].(string)] = m
+		docs[i] = model.NewDoc(m)
+	}
+	if err := h.DB.CreateCollection(name); err != nil {
+		c.Violate("setup", "%v", err)
+		return
+	}
+	if err := h.DB.Insert(name, docs...); err != nil {
+		c.Violate("setup", "%v", err)
+		return
+	}
+	indexed := r.Bool()
+	if indexed {
+		if err := h.DB.CreateIndex(name, "x"); err != nil {
+			c.Violate("setup", "%v", err)
+			return
+		}
+	}
+	// what a reader checks: x >= k has n-k matching documents, in x order when sorted
+	check := func(k int, sorted bool, got []*document.Document, err error) string {
+		if err != nil {
+			return fmt.Sprintf("query x >= %d failed: %v", k, err)
+		}
+		if len(got) != n-k {
+			return fmt.Sprintf("query x >= %d (sorted=%v) returned %d documents, %d match", k, sorted, len(got), n-k)
+		}
+		seen := map[int64]bool{}
+		for i, d := range got {
+			x, _ := d.Get("x").(int64)
+			if x < int64(k) || seen[x] {
+				return fmt.Sprintf("query x >= %d returned x=%d (non-matching or twice)", k, x)
+			}
+			seen[x] = true
+			if sorted && x != int64(k+i) {
+				return fmt.Sprintf("query x >= %d sorted by x has x=%d at position %d", k, x, i)
+			}
+		}
+		return ""
+	}
+	h.MS.SetPerturb(mon.Perturb{On: true, Seed: r.U64(), Pct: gen.Pick(r, []int{30, 60}), AfterGetUs: gen.Pick(r, []int{200, 800, 2500})})
+	var stop int32
+	var bad atomic.Value
+	var reads int64
+	var wg sync.WaitGroup
+	readers := r.Range(2, 5)
+	for i := 0; i < readers; i++ {
+		wg.Add(1)
+		rr := r.Fork()
+		go func() {
+			defer wg.Done()
+			for atomic.LoadInt32(&stop) == 0 {
+				core.Tick()
+				k := rr.Intn(n)
+				sorted := rr.Bool()
+				q := query.NewQuery(name).Where(query.Field("x").GtEq(int64(k)))
+				if sorted {
+					q = q.Sort(query.SortOption{Field: "x", Direction: 1})
+				}
+				var got []*document.Document
+				err := Do(func() error {
+					var e error
+					got, e = h.DB.FindAll(q)
+					return e
+				})
+				atomic.AddInt64(&reads, 1)
+				if why := check(k, sorted, got, err); why != "" {
+					bad.CompareAndSwap(nil, "while the index on x was being dropped / created: "+why)
+					return
+				}
+			}
+		}()
+	}
+	cycles := r.Range(2, 7)
+	ddlErr := ""
+	for i := 0; i < cycles && ddlErr == ""; i++ {
+		core.Tick()
+		var err error
+		if indexed {
+			err = Do(func() error { return h.DB.DropIndex(name, "x") })
+		} else {
+			err = Do(func() error { return h.DB.CreateIndex(name, "x") })
+		}
+		if err != nil {
+			ddlErr = fmt.Sprintf("index DDL number %d (drop=%v) failed: %v", i, indexed, err)
+			break
+		}
+		indexed = !indexed
+		// let the readers go on for a few queries before the next DDL
+		for t, base := 0, atomic.LoadInt64(&reads); t < 200 && atomic.LoadInt64(&reads) < base+int64(readers); t++ {
+			time.Sleep(50 * time.Microsecond)
+		}
+	}
+	// the readers keep running for a moment after the last DDL: a reader that started before it ends after it
+	for t, base := 0, atomic.LoadInt64(&reads); t < 200 && atomic.LoadInt64(&reads) < base+int64(2*readers); t++ {
+		time.Sleep(50 * time.Microsecond)
+	}
+	atomic.StoreInt32(&stop, 1)
+	wg.Wait()
+	h.MS.SetPerturb(mon.Perturb{})
+	c.Eval(int(reads))
+	c.Count("ddl_concurrent_reads", int(reads))
+	if ddlErr != "" {
+		c.Violate("conc:ddl-error", "%s", ddlErr)
+		return
+	}
+	if v := bad.Load(); v != nil {
+		c.Violate("conc:ddl-read", "%s (%d documents, %s)", v, n, backend)
+		return
+	}
+	// quiescent: the same queries again, then the full audit
+	for _, k := range []int{0, n / 3, n - 1} {
+		for _, sorted := range []bool{false, true} {
+			q := query.NewQuery(name).Where(query.Field("x").GtEq(int64(k)))
+			if sorted {
+				q = q.Sort(query.SortOption{Field: "x", Direction: 1})
+			}
+			got, err := h.DB.FindAll(q)
+			c.Eval(1)
+			if why := check(k, sorted, got, err); why != "" {
+				has, _ := h.DB.HasIndex(name, "x")
+				c.Violate("conc:ddl-stale", "after %d index DDLs run next to %d readers (HasIndex now %v): %s", cycles, readers, has, why)
+				return
+			}
+		}
+	}
+	s := NewS(c, h)
+	if indexed {
+		mc.Indexes["x"] = true
+	}
+	s.m.Colls[name] = mc
+	s.Audit("index DDL next to concurrent readers")
+	if !s.failed {
+		c.Cell("conc-ddl|%s|readers%d|ends-indexed=%v", backendClass(backend), readers, indexed)
+	}
+}
